@@ -282,6 +282,12 @@ func genPlanC18(def *PropDef, tier string, seed uint64, run int64) *Plan {
 		ctl = append(ctl, Op{K: "wait_quiescent"})
 	} else {
 		ctl = append(ctl, Op{K: "wait_quiescent"})
+		if rng.Chance(50) {
+			// a wait that starts when all publishers are done, just below NextOffset (A <= -1000:
+			// NextOffset-1-(-1000-A) at the time of the call): it must return at once, whatever
+			// order the publishers' notifications were delivered in
+			ctl = append(ctl, Op{K: "consume_b", A: -1000 - int64(rng.Pick(70, 20, 10)), B: int64(rng.Range(1, 3)), H: 14})
+		}
 		switch rng.Pick(45, 40, 15) {
 		case 0:
 			for w := 0; w < nw; w++ {
